@@ -18,6 +18,7 @@ XML_DOCS = [
     '<r xmlns="urn:1" xmlns:p="urn:2" xmlns:d="urn:1"><e a="x" p:a="y"/><p:e d:a="z"/><d:e/><f xmlns="" a="n"><e/></f>'
     '<e xmlns="urn:2" xmlns:p="urn:1"><p:e p:a="r"/></e></r>',
     '<r xmlns:p="urn:1"><e/><p:e a="x"/><u:e xmlns:u="urn:9"/><e xmlns:p="urn:2"><p:e p:a="w"/></e></r>',
+    '<r xmlns:m="urn:1" xmlns:t="urn:2"><m:e m:a="1" t:a="2"/><m:e t:a="2" m:a="1" checked="checked"/><m:e a="0"/><t:e m:a="1"/><m:e/><e checked="checked"/></r>',
 ]
 HTML5 = '<div><p id="h">x</p><svg><circle xlink:href="#a" id="c"/><e/></svg><math><mi a="q"/></math></div>'
 
@@ -36,6 +37,13 @@ def trace_part(chk, tier):
         for an in ('a', 'href'):
             forms.append([{'cs': [[{'k': 'attr', 'ns': ns, 'name': cps(an), 'op': 'ex', 'val': [], 'flag': 'n'}]], 'cb': []}])
     forms.append([{'cs': [[{'k': 'not', 'args': [{'cs': [[{'k': 'type', 'ns': P('p'), 'name': cps('e')}]], 'cb': []}]}]], 'cb': []}])
+    # namespace selectors combined with HTML-only pseudo-classes (internally evaluated under a private prefix map)
+    for ns in (P('p'), P('q'), B):
+        for st in ('checked', 'disabled', 'link', 'required'):
+            forms.append([{'cs': [[{'k': 'type', 'ns': ns, 'name': cps('e')}, {'k': 'not', 'args': [{'cs': [[{'k': st}]], 'cb': []}]}]], 'cb': []}])
+            forms.append([{'cs': [[{'k': 'type', 'ns': ns, 'name': cps('e')}]], 'cb': []}, {'cs': [[{'k': st}]], 'cb': []}])
+    forms.append([{'cs': [[{'k': 'attr', 'ns': P('p'), 'name': cps('a'), 'op': 'ex', 'val': [], 'flag': 'n'},
+                           {'k': 'attr', 'ns': P('q'), 'name': cps('a'), 'op': 'ex', 'val': [], 'flag': 'n'}]], 'cb': []}])
     maps = [None, {'p': U1}, {'p': U2, 'q': U1}, {'': U1, 'p': U2}, {'': 'http://www.w3.org/1999/xhtml', 'svg': 'http://www.w3.org/2000/svg',
                                                                        'q': 'http://www.w3.org/1999/xlink'}, {'': U2}]
     lines = []
